@@ -652,14 +652,33 @@ func (d *Decoder) ShardCounts() ShardCounts {
 // error is returned. If checkParity is true, extra checking is done
 // of the reconstructed parity data.
 func (d *Decoder) Repair(checkParity bool) ([]string, error) {
-	coder, dataShards, err := d.newCoderAndShards()
-	if err != nil {
-		return nil, err
-	}
+	var coder rsec16.Coder
+	var dataShards [][]byte
+	var err error
+	if len(d.fileIntegrityInfos) != 0 && len(d.parityShards) == 0 {
+		// There is no recovery data at all, so nothing can be
+		// reconstructed (and there is nothing to check
+		// against), but files whose slices were all found can
+		// still be rewritten.
+		for _, info := range d.fileIntegrityInfos {
+			for _, shardInfo := range info.shardInfos {
+				if shardInfo.data == nil {
+					return nil, rsec16.NotEnoughParityShardsError{}
+				}
+				dataShards = append(dataShards, shardInfo.data)
+			}
+		}
+		checkParity = false
+	} else {
+		coder, dataShards, err = d.newCoderAndShards()
+		if err != nil {
+			return nil, err
+		}
 
-	err = coder.ReconstructData(dataShards, d.parityShards)
-	if err != nil {
-		return nil, err
+		err = coder.ReconstructData(dataShards, d.parityShards)
+		if err != nil {
+			return nil, err
+		}
 	}
 
 	if checkParity {
